@@ -98,7 +98,23 @@ pub fn gen_case(t: &mut Tape) -> Case {
             let ns = t.pick(3);
             let l = *line;
             *line += ns + 2;
-            mkscenario(name.clone(), (0..ns).map(|i| mkstep(format!("{name} step {i}"), l + 1 + i, i)).collect(), gen_tags(t, 25), l)
+            let mut sc = mkscenario(name.clone(), (0..ns).map(|i| mkstep(format!("{name} step {i}"), l + 1 + i, i)).collect(), gen_tags(t, 25), l);
+            // A row expanded from an outline keeps the outline's whole `examples` list: the tags of
+            // its own block are already in `sc.tags`, those of sibling blocks are *not* its tags.
+            if t.rare(1, 4) {
+                for bi in 0..t.range(1, 2) {
+                    sc.examples.push(gherkin::Examples {
+                        keyword: "Examples".into(),
+                        name: None,
+                        description: None,
+                        table: None,
+                        tags: gen_tags(t, 40),
+                        span: gherkin::Span::default(),
+                        position: gherkin::LineCol { line: l + 20 + bi, col: 5 },
+                    });
+                }
+            }
+            sc
         };
         let scs: Vec<_> = (0..t.pick(4)).map(|si| mk(t, format!("F{fi}.S{si}"), &mut line)).collect();
         let mut rules = vec![];
